@@ -358,6 +358,20 @@ def check_graph(ctx, Network, A, directed, cid, rng, heavy=True):
                     counter="signed_weights_compared")
             c.check("outdegree", "key,signed", R.outdegree(A, Ws), "ws",
                     counter="signed_weights_compared")
+            # the caller works on the matrix it was handed (rescales it,
+            # masks the zeros): the network's weights are the network's
+            okv, V_ = ctx.call(c.net.link_attribute, "ws")
+            if okv and isinstance(V_, np.ndarray) and V_.flags.writeable:
+                V_ *= 1000.0
+                V_[V_ == 0] = np.nan
+                ctx.count("returned_attribute_matrix_edited_by_caller")
+                c.check("link_attribute", "signed,after-caller-edit", Ws,
+                        "ws", counter="signed_weights_compared")
+                c.check("bildegree" if directed else "degree",
+                        "key,signed,after-caller-edit",
+                        R.bildegree(A, Ws) if directed
+                        else R.degree(A, directed, Ws), "ws",
+                        counter="signed_weights_compared")
         else:
             ctx.violation(f"set_link_attribute:{c.dirs}:raises:"
                           f"{type(e).__name__}:signed", c.info(exc=repr(e)),
